@@ -137,23 +137,24 @@ def space(draw, max_depth=3, hostile=True, indexed=True):
     n = draw(st.integers(1, 3 if depth == 1 else 2))
     params = []
     for _ in range(n):
-      if indexed and draw(st.integers(0, 3 if depth == 1 else 6)) == 0:
-        params.extend(family())
-        continue
       # the first parameter of a level is (mostly) a parent, so that the
       # requested depth is usually reached
       force = (depth < max_depth and not params and
                draw(st.integers(0, 9)) > 0)
+      if (not force and indexed and
+          draw(st.integers(0, 2 if depth == 1 else 5)) == 0):
+        params.extend(family())
+        continue
       p = draw(leaf(fresh('p'), kinds=KINDS[1:] if force else KINDS))
       pv = parent_values_of(p)
       if depth < max_depth and pv and (force or draw(st.booleans())):
         kids = []
-        ngroups = draw(st.integers(1, 2))
+        ngroups = draw(st.sampled_from([1, 2, 2]))
         remaining = list(pv)
         for _ in range(ngroups):
           if not remaining:
             break
-          k = draw(st.integers(1, min(3, len(remaining))))
+          k = draw(st.integers(1, max(1, min(3, len(remaining) - 1))))
           sel = draw(st.lists(st.sampled_from(remaining), min_size=k,
                               max_size=k, unique=True))
           # parent-value sets of the groups of one parent are disjoint, so a
@@ -257,7 +258,7 @@ def point(draw, spec):
     for p in plist:
       v = draw(value_in(p))
       kids = p.get('children', ())
-      if kids and draw(st.integers(0, 3)) > 0:
+      if kids and draw(st.integers(0, 2)) > 0:
         # prefer a value that activates a declared subspace
         v = draw(st.sampled_from(
             [x for ch in kids for x in ch['parent_values']]))
@@ -278,14 +279,19 @@ def trial(draw, spec):
   params is a list of [name, value] pairs (insertion order is drawn)."""
   params = draw(point(spec))
   pool = [p for p, _ in walk(spec) if p['name'] not in params]
+  # inactive parameters whose declared parent is itself absent from the trial
+  orphan = [q for p, _ in walk(spec) if p['name'] not in params
+            for ch in p.get('children', ()) for q in ch['params']
+            if q['name'] not in params]
   has_family = any('index' in p for p, _ in walk(spec))
   want = draw(st.sampled_from(
-      ['valid', 'valid', 'extra'] + (['inactive'] * 3 if pool else []) +
+      ['valid', 'valid', 'extra'] + (['inactive'] * 6 if pool else []) +
       (['missing_indexed'] if has_family else [])))
   made = 'valid'
   if want == 'inactive':
     if pool:
-      p = draw(st.sampled_from(pool))
+      p = draw(st.sampled_from(
+          orphan if orphan and draw(st.booleans()) else pool))
       params[p['name']] = draw(value_in(p))
       made = 'inactive'
     else:
